@@ -19,7 +19,13 @@ import (
 	"time"
 )
 
-const verifRoot = "/verif"
+// verifRoot is /verif, or the snapshot bin/check was started from (vp run).
+var verifRoot = func() string {
+	if v := os.Getenv("VERIF_ROOT"); v != "" {
+		return v
+	}
+	return "/verif"
+}()
 
 func main() {
 	if len(os.Args) < 2 {
